@@ -51,6 +51,9 @@ def check_case(ctx, case):
         noflag = format(o, str(sig))
         if core != noflag:
             probs.append(('violation', 'flag-changes-digits', '%r vs %r' % (s, noflag)))
+        # the flag only supplies the leading character of a string that has no sign of its own
+        if flag in ('+', ' ') and s != (noflag if noflag.startswith('-') else flag + noflag):
+            probs.append(('violation', 'flag-rule', '%r for flag %r, unflagged %r' % (s, flag, noflag)))
         try:
             vs, es = core[:-1].split('(')
         except ValueError:
@@ -79,7 +82,7 @@ def check_case(ctx, case):
         if not close(pv, float(vb), rtol=1e-14) or not close(pd, float(eb), rtol=1e-13):
             probs.append(('violation', 'prior-string', '%r parsed as (%r, %r), printed (%s, %s)' % (core, pv, pd, float(vb), float(eb))))
         # ---- correspondence with the exact model
-        if ctx.lean is not None:
+        if ctx.lean is not None and not (v == 0 and math.copysign(1.0, v) < 0):      # (negative zero is not a rational)
             fexp = int(np.floor(np.log10(d)))
             lo, hi = Fraction(10) ** fexp, Fraction(10) ** (fexp + 1)
             slack = Fraction(1, 2 ** 45)
@@ -93,7 +96,9 @@ def check_case(ctx, case):
         v, d, v2, d2 = [float.fromhex(x) for x in case['vals']]
         z = pe.CObs(make_obs(v, d), make_obs(v2, d2))
         s = str(z)
-        exp = '(' + str(make_obs(v, d)) + ('+' if v2 >= 0 else '') + str(make_obs(v2, d2)) + 'j)'
+        # both parts print as value(error); a '+' joins them unless the imaginary part brings its own sign
+        si = str(make_obs(v2, d2))
+        exp = '(' + str(make_obs(v, d)) + ('' if si.startswith('-') else '+') + si + 'j)'
         if s != exp:
             probs.append(('violation', 'cobs-str', '%r vs %r' % (s, exp)))
         sig = case['sig']
@@ -172,8 +177,8 @@ def gen_case(ctx):
         v = 0.0
     else:
         v = d * rng.choice([0.5, 1.5, 2.5, 10.5, 0.25])
-    if rng.random() < 0.4 and v != 0:
-        v = -v          # (negative zero is not representable as a rational; not generated)
+    if rng.random() < 0.4:
+        v = -v          # includes the negative zero (which the exact model cannot represent: string rules only)
     if abs(v) > 1e15 and rel != 'huge':
         v = v / 1e6
     if k < 0.8:
@@ -181,7 +186,8 @@ def gen_case(ctx):
                 'use_str': rng.random() < 0.5}
     if k < 0.88:
         d2 = gen_pos(rng, -6, 6)
-        return {'kind': 'cobs', 'vals': [float(v).hex(), d.hex(), float(-v * 0.3 + d2).hex(), d2.hex()], 'sig': rng.choice([1, 2, 3])}
+        v2 = float(-v * 0.3 + d2) if rng.random() < 0.85 else rng.choice([0.0, -0.0])
+        return {'kind': 'cobs', 'vals': [float(v).hex(), d.hex(), v2.hex(), d2.hex()], 'sig': rng.choice([1, 2, 3])}
     if k < 0.92:
         return {'kind': 'noerr', 'v': float(v).hex(), 'd': rng.choice([0.0, float('inf'), float('nan')])}
     return {'kind': 'views', 'v': float(v).hex(), 'd': d.hex(), 'w': float(v + rng.choice([-1, 0, 1]) * d * rng.uniform(0, 3)).hex()}
